@@ -775,7 +775,7 @@ def nanquantile(a, *args, **kwargs):
 def linalg_det(a, *args, **kwargs):
     return (
         np.linalg.det._implementation(np.asarray(a), *args, **kwargs)
-        * a.units ** (a.shape[0])
+        * a.units ** (a.shape[-1])
     )
 
 
